@@ -3047,11 +3047,11 @@ function_name:
 cond:
         L_IF '(' comma_expr ')' statement optional_else_part
             {
-                /* x != 0 -> x */
+                /* x != 0 -> x; not when x may be a float: 0.0 != 0 is false but 0.0 counts as true */
                 if (IS_NODE($3, NODE_BINARY_OP, F_NE)) {
-                    if (IS_NODE($3->r.expr, NODE_NUMBER, 0))
+                    if (IS_NODE($3->r.expr, NODE_NUMBER, 0) && !MAY_BE_REAL($3->l.expr->type))
                         $3 = $3->l.expr;
-                    else if (IS_NODE($3->l.expr, NODE_NUMBER, 0))
+                    else if (IS_NODE($3->l.expr, NODE_NUMBER, 0) && !MAY_BE_REAL($3->r.expr->type))
                              $3 = $3->r.expr;
                 }
 
